@@ -107,6 +107,11 @@ impl EAppend {
                     event_name: event_name.to_string(),
                     ..Default::default()
                 };
+                // `expected_version`, `payload` and `metadata` have non-`Option` defaults, so
+                // whether they were already given is tracked separately.
+                let mut expected_version_seen = false;
+                let mut payload_seen = false;
+                let mut metadata_seen = false;
 
                 for arg in args {
                     match arg {
@@ -129,12 +134,13 @@ impl EAppend {
                             cmd.partition_key = Some(partition_key);
                         }
                         OptionalArg::ExpectedVersion(expected_version) => {
-                            if !matches!(cmd.expected_version, ExpectedVersion::Any) {
+                            if expected_version_seen {
                                 return Err(easy::Error::message_format(
                                     "expected version already specified",
                                 ));
                             }
 
+                            expected_version_seen = true;
                             cmd.expected_version = expected_version;
                         }
                         OptionalArg::Timestamp(timestamp) => {
@@ -147,21 +153,23 @@ impl EAppend {
                             cmd.timestamp = Some(timestamp);
                         }
                         OptionalArg::Payload(payload) => {
-                            if !cmd.payload.is_empty() {
+                            if payload_seen {
                                 return Err(easy::Error::message_format(
                                     "payload already specified",
                                 ));
                             }
 
+                            payload_seen = true;
                             cmd.payload = payload.to_vec();
                         }
                         OptionalArg::Metadata(metadata) => {
-                            if !cmd.metadata.is_empty() {
+                            if metadata_seen {
                                 return Err(easy::Error::message_format(
                                     "metadata already specified",
                                 ));
                             }
 
+                            metadata_seen = true;
                             cmd.metadata = metadata.to_vec();
                         }
                     }
